@@ -9,10 +9,8 @@
      forall name s, In (name, s) setters ->
        forall ro tr, exec ro s tr -> raises tr -> written tr = [].
 
-   It does not hold on the current tree for exactly one setter, CSSImportRule.cssText (open finding
-   C19-importrule-csstext-import-error: `self.href = ...` is the last step of the commit and loading the
-   imported sheet may raise): `C19_importrule_csstext_refuted` exhibits the execution, and
-   `C19_rejected_assignment_unchanged_partial` proves the statement for all other setters.            *)
+   It holds for every setter since CSSImportRule.cssText loads the imported sheet before it commits
+   (`C19_rejected_assignment_unchanged`; the `_partial` form is kept with its now empty exclusion).            *)
 From CssV Require Import Base Atomic AtomicFacts AtomicLenient Gen.Scripts AtomicHand.
 Open Scope string_scope.
 Open Scope list_scope.
@@ -41,14 +39,12 @@ Theorem C19_refused_are_transcribed : names_in refused_anchored hand_scripts = t
 Proof. exact refused_are_transcribed. Qed.
 Print Assumptions C19_refused_are_transcribed.
 
-(* the open finding: an execution of CSSImportRule.cssText that writes to the rule and then raises *)
-Theorem C19_importrule_csstext_refuted : has_dirty_raise script_CSSImportRule_cssText.
-Proof. exact importrule_csstext_refuted. Qed.
-Print Assumptions C19_importrule_csstext_refuted.
-
-Theorem C19_importrule_csstext_not_atomic : atomic script_CSSImportRule_cssText = false.
-Proof. exact importrule_csstext_not_atomic. Qed.
-Print Assumptions C19_importrule_csstext_not_atomic.
+(* FULL first statement: every text setter of the anchored files (no exclusion left) *)
+Theorem C19_rejected_assignment_unchanged :
+  forall name s, In (name, s) setters ->
+    forall ro tr, exec ro s tr -> raises tr -> written tr = [].
+Proof. exact setters_unchanged. Qed.
+Print Assumptions C19_rejected_assignment_unchanged.
 
 (* the setters repaired by fix: commits, by name (they were refuted on the pinned tree) *)
 Theorem C19_repaired_setters_atomic :
@@ -56,7 +52,7 @@ Theorem C19_repaired_setters_atomic :
   atomic script_Property_cssText = true /\ atomic script_Property_priority = true /\
   atomic script_MediaList_mediaText = true /\ atomic script_PropertyValue_cssText = true /\
   atomic script_ColorValue_cssText = true /\ atomic script_CSSNamespaceRule_cssText = true /\
-  atomic script_CSSImportRule_href = true.
+  atomic script_CSSImportRule_href = true /\ atomic script_CSSImportRule_cssText = true.
 Proof. exact repaired_setters_atomic. Qed.
 Print Assumptions C19_repaired_setters_atomic.
 
@@ -68,7 +64,7 @@ Print Assumptions C19_repaired_setters_atomic.
        forall ro ws f o, lexec ro s false (ws, f, o) -> f = true \/ o = ORaise -> ws = [].
 
    `lexec` has one semantics for both modes (a failing check may raise or log + clear the flag); `LGuard` (`if wellformed:`)
-   runs its body only while the flag is clear.  Excluded: the open finding and the unused media-query shortcut of
+   runs its body only while the flag is clear.  Excluded: the unused media-query shortcut of
    Property.cssText (see AtomicHand.v).                                                                         *)
 Theorem C19_atomic_lenient_sound :
   forall s, atomic_lenient s = true ->
